@@ -248,12 +248,65 @@ proof fn lemma_colsum_mono(cells: Seq<RenderTableCell>, a: int, b: int) requires
 spec fn table_ok(t: RenderTable) -> bool {
     &&& t.num_columns <= 0x1000 && t.rows@.len() <= 0x1000            // A5
     &&& forall|i: int| 0 <= i < t.rows@.len() ==> colsum((#[trigger] t.rows@[i]).cells@, t.rows@[i].cells@.len() as int) <= t.num_columns     // spans stay inside the columns (RenderTable::new)
-    &&& forall|i: int, j: int| 0 <= i < t.rows@.len() && 0 <= j < t.rows@[i].cells@.len() ==> (#[trigger] t.rows@[i].cells@[j]).colspan >= 1     // no zero colspan (fix b7a36fb)
+    &&& forall|i: int, j: int| 0 <= i < t.rows@.len() && 0 <= j < t.rows@[i].cells@.len() ==> (#[trigger] t.rows@[i].cells@[j]).colspan >= 1     // no zero colspan (fix b7a36fb; proved for RenderTable::new in unit TN)
+    &&& forall|i: int, j: int| 0 <= i < t.rows@.len() && 0 <= j < t.rows@[i].cells@.len() ==> cell_ready(#[trigger] t.rows@[i].cells@[j])         // the pre-pass has estimated the cell contents
 }
-// RenderTableCell::get_size_estimate (src/lib.rs:390-401): the cached or folded estimate of the cell's content; A5: below 2^20.  Not under contract yet.
+// a cell can be estimated: its own cache is filled with a small value, or every content node has been estimated and the sum is small (A5, A6)
+spec fn sum_cached(v: Seq<RenderNode>, k: int) -> int decreases k { if k <= 0 { 0 } else { sum_cached(v, k - 1) + (match cached(v[k - 1].size_estimate) { Some(e) => e.size as int, None => 0 }) } }
+spec fn max_cached(v: Seq<RenderNode>, k: int) -> int decreases k { if k <= 0 { 0 } else { let p = max_cached(v, k - 1); let e = (match cached(v[k - 1].size_estimate) { Some(e) => e.min_width as int, None => 0 }); if p >= e { p } else { e } } }
+proof fn lemma_sum_cached_mono(v: Seq<RenderNode>, a: int, b: int) requires 0 <= a <= b ensures 0 <= sum_cached(v, a) <= sum_cached(v, b), 0 <= max_cached(v, a) <= max_cached(v, b) decreases b - a { if a < b { lemma_sum_cached_mono(v, a, b - 1); } else { lemma_sum_cached_nonneg(v, a); } }
+proof fn lemma_sum_cached_nonneg(v: Seq<RenderNode>, k: int) ensures 0 <= sum_cached(v, k), 0 <= max_cached(v, k) decreases k { if k > 0 { lemma_sum_cached_nonneg(v, k - 1); } }
+spec fn cell_ready(c: RenderTableCell) -> bool {
+    match cached(c.size_estimate) {
+        Some(e) => e.size <= 0x10_0000 && e.min_width <= 0x10_0000,
+        None => (forall|j: int| 0 <= j < c.content@.len() ==> cached((#[trigger] c.content@[j]).size_estimate) is Some) && sum_cached(c.content@, c.content@.len() as int) <= 0x10_0000 && max_cached(c.content@, c.content@.len() as int) <= 0x10_0000,
+    }
+}
+// R7: `.iter().map(|node| node.get_size_estimate()).fold(Default::default(), SizeEstimate::add)` as the left fold it is (our code, verified)
+fn fold_cached(v: &Vec<RenderNode>) -> (r: SizeEstimate)
+    requires forall|j: int| 0 <= j < v@.len() ==> cached((#[trigger] v@[j]).size_estimate) is Some, sum_cached(v@, v@.len() as int) <= 0x10_0000,
+    ensures r.size == sum_cached(v@, v@.len() as int), r.min_width == max_cached(v@, v@.len() as int), r.prefix_size == 0,
+{
+    let mut acc = se_zero();
+    for k in 0..v.len()
+        invariant acc.size == sum_cached(v@, k as int), acc.min_width == max_cached(v@, k as int), acc.prefix_size == 0, sum_cached(v@, v@.len() as int) <= 0x10_0000,
+            forall|j: int| 0 <= j < v@.len() ==> cached((#[trigger] v@[j]).size_estimate) is Some,
+    {
+        proof { lemma_sum_cached_mono(v@, k as int + 1, v@.len() as int); }
+        let e = v[k].get_size_estimate();
+        acc = acc.add(e);
+    }
+    acc
+}
+impl RenderNode {
+//@item src/lib.rs :: impl RenderNode :: fn get_size_estimate
+//@auto C01 C02
+//@sub /-> SizeEstimate/ ==> -> (r: SizeEstimate)
+    fn get_size_estimate(&self) -> (r: SizeEstimate)
+        requires cached(self.size_estimate) is Some,     // boundary (A6): the bottom-up pre-pass (precalc_size_estimate) has estimated every node before its table //@w
+        ensures Some(r) == cached(self.size_estimate), //@w @C02 #cached_estimate_returned
+    {
+        self.size_estimate.get().unwrap()
+    }
+//@end
+}
 impl RenderTableCell {
-    #[verifier::external_body]
-    fn get_size_estimate(&self) -> (r: SizeEstimate) ensures r.size <= 0x10_0000, r.min_width <= 0x10_0000 { unimplemented!() }
+//@item src/lib.rs :: impl RenderTableCell :: fn get_size_estimate
+//@auto C01 C02
+//@sub /-> SizeEstimate/ ==> -> (r: SizeEstimate)
+//@sub /self\s*\.content\s*\.iter\(\)\s*\.map\(\|node\| node\.get_size_estimate\(\)\)\s*\.fold\(Default::default\(\), SizeEstimate::add\)/ ==> fold_cached(&self.content)
+    fn get_size_estimate(&self) -> (r: SizeEstimate)
+        requires cell_ready(*self), //@w
+        ensures r.size <= 0x10_0000, r.min_width <= 0x10_0000, //@w @C01 #cell_estimate_bounded
+    {
+        let Some(size) = self.size_estimate.get() else {
+            let size = fold_cached(&self.content);
+            self.size_estimate.set(Some(size));
+            return size;
+        };
+        size
+    }
+//@end
 }
 // R7: vec![Default::default(); n], .iter().map(|s| s.size).sum(), .iter().map(|s| s.min_width).sum::<usize>() as proved accumulators
 fn vec_zero_estimates(n: usize) -> (r: Vec<SizeEstimate>)
@@ -302,41 +355,38 @@ impl RenderTable {
             return result;
         }
         let mut sizes: Vec<SizeEstimate> = vec_zero_estimates(self.num_columns);
+        let ghost nc = self.num_columns as int; //@w
 
         // For now, a simple estimate based on adding up sub-parts.
-        let ghost nc = self.num_columns as int; //@w
         for row in itr: self.rows.iter()
-            invariant //@w[
-                table_ok(*self), nc == self.num_columns, sizes@.len() == nc, itr.seq().len() == self.rows@.len(), forall|i: int| 0 <= i < self.rows@.len() ==> *(#[trigger] itr.seq()[i]) == self.rows@[i],
-                forall|j: int| 0 <= j < nc ==> (#[trigger] sizes@[j]).size <= itr.index@ * 0x10_0000 && sizes@[j].min_width <= 0x10_0000,
-            //@w]
+            invariant //@w
+                table_ok(*self), nc == self.num_columns, sizes@.len() == nc, itr.seq().len() == self.rows@.len(), forall|i: int| 0 <= i < self.rows@.len() ==> *(#[trigger] itr.seq()[i]) == self.rows@[i], //@w
+                forall|j: int| 0 <= j < nc ==> (#[trigger] sizes@[j]).size <= itr.index@ * 0x10_0000 && sizes@[j].min_width <= 0x10_0000, //@w
         {
             let ghost ri = itr.index@; //@w
             assert(*row == self.rows@[ri]); //@w
             let mut colno = 0usize;
             for cell in itc: row.cells.iter()
-                invariant //@w[
-                    table_ok(*self), nc == self.num_columns, sizes@.len() == nc, 0 <= ri < self.rows@.len(), *row == self.rows@[ri],
-                    itc.seq().len() == row.cells@.len(), forall|i: int| 0 <= i < row.cells@.len() ==> *(#[trigger] itc.seq()[i]) == row.cells@[i],
-                    colno == colsum(row.cells@, itc.index@),
-                    forall|j: int| 0 <= j < nc ==> (#[trigger] sizes@[j]).size <= (ri + 1) * 0x10_0000 && sizes@[j].min_width <= 0x10_0000,
-                    forall|j: int| colno <= j < nc ==> (#[trigger] sizes@[j]).size <= ri * 0x10_0000,
-                //@w]
+                invariant //@w
+                    table_ok(*self), nc == self.num_columns, sizes@.len() == nc, 0 <= ri < self.rows@.len(), *row == self.rows@[ri], //@w
+                    itc.seq().len() == row.cells@.len(), forall|i: int| 0 <= i < row.cells@.len() ==> *(#[trigger] itc.seq()[i]) == row.cells@[i], //@w
+                    colno == colsum(row.cells@, itc.index@), //@w
+                    forall|j: int| 0 <= j < nc ==> (#[trigger] sizes@[j]).size <= (ri + 1) * 0x10_0000 && sizes@[j].min_width <= 0x10_0000, //@w
+                    forall|j: int| colno <= j < nc ==> (#[trigger] sizes@[j]).size <= ri * 0x10_0000, //@w
             {
                 let ghost ci = itc.index@; //@w
-                proof { //@w[
-                    assert(*cell == row.cells@[ci]);
-                    assert(self.rows@[ri].cells@[ci].colspan >= 1);
-                    lemma_colsum_mono(row.cells@, ci + 1, row.cells@.len() as int);
-                    assert(colsum(row.cells@, ci + 1) == colno + cell.colspan);
-                } //@w]
+                proof { //@w
+                    assert(*cell == row.cells@[ci]); //@w
+                    assert(self.rows@[ri].cells@[ci].colspan >= 1); //@w
+                    lemma_colsum_mono(row.cells@, ci + 1, row.cells@.len() as int); //@w
+                    assert(colsum(row.cells@, ci + 1) == colno + cell.colspan); //@w
+                } //@w
                 let cellsize = cell.get_size_estimate();
                 for colnum in 0..cell.colspan
-                    invariant //@w[
-                        nc == self.num_columns, sizes@.len() == nc, colno + cell.colspan <= nc, cell.colspan >= 1, cellsize.size <= 0x10_0000, cellsize.min_width <= 0x10_0000, nc <= 0x1000, 0 <= ri <= 0x1000,
-                        forall|j: int| 0 <= j < nc ==> (#[trigger] sizes@[j]).size <= (ri + 1) * 0x10_0000 && sizes@[j].min_width <= 0x10_0000,
-                        forall|j: int| colno + colnum <= j < nc ==> (#[trigger] sizes@[j]).size <= ri * 0x10_0000,
-                    //@w]
+                    invariant //@w
+                        nc == self.num_columns, sizes@.len() == nc, colno + cell.colspan <= nc, cell.colspan >= 1, cellsize.size <= 0x10_0000, cellsize.min_width <= 0x10_0000, nc <= 0x1000, 0 <= ri <= 0x1000, //@w
+                        forall|j: int| 0 <= j < nc ==> (#[trigger] sizes@[j]).size <= (ri + 1) * 0x10_0000 && sizes@[j].min_width <= 0x10_0000, //@w
+                        forall|j: int| colno + colnum <= j < nc ==> (#[trigger] sizes@[j]).size <= ri * 0x10_0000, //@w
                 {
                     sizes[colno + colnum].size += cellsize.size / cell.colspan;
                     sizes[colno + colnum].min_width = sizes[colno + colnum].min_width.max(cellsize.min_width / cell.colspan);
